@@ -3,6 +3,7 @@ CONSTANTS
   MaxInst = @@MAXINST@@
   MaxOps = @@MAXOPS@@
   Emit = TRUE
+  Vias = @@VIAS@@
 VIEW View
 ACTION_CONSTRAINT EmitEdge
 INVARIANTS ExactlyOwnType
